@@ -891,7 +891,14 @@ func (u *Unit) exec(s *State, f *Frame, in ssa.Instruction) []*State {
 	case *ssa.MakeSlice:
 		ln := u.toInt(u.term(s, u.val(s, f, x.Len)), x.Len.Type())
 		cp := u.toInt(u.term(s, u.val(s, f, x.Cap)), x.Cap.Type())
-		u.check(s, "make", in, "makeslice: len/cap out of range", And(Le(IntLit(0), ln), Le(ln, cp), Le(cp, maxElems(x.Type().Underlying().(*types.Slice).Elem()))))
+		if u.C != nil && u.C.Opts != nil && u.C.Opts["makecap"] == "assume" {
+			// the upper bound of the requested capacity is assumed, not proved (listed)
+			u.Assumed["make() capacity upper bound in "+shortKey(fnKey(u.Fn))+" is assumed to be within the allocator limit (`opt makecap=assume`)"] = true
+			u.check(s, "make", in, "makeslice: negative len or len > cap", And(Le(IntLit(0), ln), Le(ln, cp)))
+			s.assume(Le(cp, maxElems(x.Type().Underlying().(*types.Slice).Elem())))
+		} else {
+			u.check(s, "make", in, "makeslice: len/cap out of range", And(Le(IntLit(0), ln), Le(ln, cp), Le(cp, maxElems(x.Type().Underlying().(*types.Slice).Elem()))))
+		}
 		u.allocCheck(s, in, cp)
 		elem := x.Type().Underlying().(*types.Slice).Elem()
 		ref := u.allocRef(s)
